@@ -942,7 +942,37 @@ func (in *Interp) callBuiltin(fn *ssa.Builtin, args []value) value {
 	case "print", "println":
 		return nil
 	case "min", "max":
-		panic(cut("builtin %s", fn.Name()))
+		// concrete operands of one kind only
+		isMax := fn.Name() == "max"
+		switch a0 := args[0].(type) {
+		case int64:
+			best := a0
+			for _, a := range args[1:] {
+				x, ok := a.(int64)
+				if !ok {
+					panic(cut("builtin %s on symbolic operands", fn.Name()))
+				}
+				if (isMax && x > best) || (!isMax && x < best) {
+					best = x
+				}
+			}
+			return best
+		case float64:
+			best := a0
+			for _, a := range args[1:] {
+				x, ok := a.(float64)
+				if !ok {
+					panic(cut("builtin %s on symbolic operands", fn.Name()))
+				}
+				if isMax {
+					best = math.Max(best, x)
+				} else {
+					best = math.Min(best, x)
+				}
+			}
+			return best
+		}
+		panic(cut("builtin %s on symbolic operands", fn.Name()))
 	case "ssa:wrapnilchk":
 		if p, ok := args[0].(*value); ok && p == nil {
 			in.targetPanic("value method called using nil pointer")
